@@ -103,7 +103,7 @@ impl Obj {
             let a = $a;
             match second { None => record(&a), Some(o) => { let b = $f(o); record(&Twice(&a, &b)) } }
         }} }
-        macro_rules! with_n { ($f:ident) => { match n { 1 => $f!(1), 2 => $f!(2), 3 => $f!(3), 5 => $f!(5), _ => None } } }
+        macro_rules! with_n { ($f:ident) => { match n { 1 => $f!(1), 2 => $f!(2), 3 => $f!(3), 5 => $f!(5), 17 => $f!(17), 65 => $f!(65), _ => None } } }
         match self.kind {
             "scalar" => plain!(self.atoms[0].1, |o: &Obj| o.atoms[0].1),
             "g1affine" => plain!(book.g1a(self.atoms[0].1), |o: &Obj| book.g1a(o.atoms[0].1)),
@@ -420,9 +420,11 @@ pub fn run(ctx: &mut Ctx) {
     let kinds: Vec<(&'static str, Vec<usize>)> = vec![
         ("scalar", vec![1]), ("g1affine", vec![1]), ("g1projective", vec![1]), ("g2affine", vec![1]), ("g2projective", vec![1]),
         ("commitment-g1", vec![1]), ("commitment-g2", vec![1]), ("blinded-message", vec![1]), ("signature", vec![1]), ("blinded-signature", vec![1]),
-        ("commitment-proof-g1", vec![1, 2, 3, 5]), ("commitment-proof-g2", vec![1, 2, 3, 5]), ("signature-request-proof", vec![1, 2, 3, 5]),
-        ("signature-proof", vec![1, 2, 3, 5]), ("pedersen-g1", vec![1, 2, 3, 5]), ("pedersen-g2", vec![1, 2, 3, 5]),
-        ("public-key", vec![1, 2, 3, 5]), ("range-params", vec![1]), ("range-constraint", vec![1]),
+        // tuple lengths: the ones zkAbacus uses and their neighbours; 17 and 65 lie beyond 16 and 64 (block / buffer sizes:
+        // a PublicKey<65> is 9600 bytes of hashed material, a PedersenParameters<G2, 65> 6336)
+        ("commitment-proof-g1", vec![1, 2, 3, 5, 17, 65]), ("commitment-proof-g2", vec![1, 2, 3, 5, 17, 65]), ("signature-request-proof", vec![1, 2, 3, 5, 17, 65]),
+        ("signature-proof", vec![1, 2, 3, 5, 17, 65]), ("pedersen-g1", vec![1, 2, 3, 5, 17, 65]), ("pedersen-g2", vec![1, 2, 3, 5, 17, 65]),
+        ("public-key", vec![1, 2, 3, 5, 17, 65]), ("range-params", vec![1]), ("range-constraint", vec![1]),
     ];
     let reps = if ctx.thorough() { 6 } else { 1 };
     let mut idx = 0;
